@@ -16,9 +16,22 @@ def gaf_schema(repo: Repo, rule="schema"):
     """attr name of the parsed record -> column index, read off GAF.parse_gaf_line:
     the record constructor call in the return statement, the constructor's `self.x = param`
     assignments, and the `fields[i]` subscripts feeding each argument."""
-    from ..core import local_defs, tail_inlined
+    from ..core import tail_inlined, unroll_const_loops, delist_unpack
 
-    f = tail_inlined(repo, repo.func("gaftools.gaf", "GAF.parse_gaf_line", rule))
+    f0 = tail_inlined(repo, repo.func("gaftools.gaf", "GAF.parse_gaf_line", rule))
+    try:
+        return _gaf_schema_of(repo, f0, rule)
+    except AnalysisError:
+        # columns validated in a loop over their indices and unpacked from the collected list
+        f1 = delist_unpack(unroll_const_loops(f0))
+        if f1 is f0:
+            raise
+        return _gaf_schema_of(repo, f1, rule)
+
+
+def _gaf_schema_of(repo, f, rule):
+    from ..core import local_defs
+
     # name of the list of columns: variable assigned from <...>.split("\t")
     fields_var = None
     for n in walk_own(f.node):
